@@ -82,4 +82,37 @@ CHECKS = {
         ],
         "assumptions": ["capture-free bodies; runs above 100000 VM instructions are discarded and counted"],
     },
+    "C05": {
+        "parts": [
+            {"test": "TestC05", "quick": 10000, "thorough": 100000, "shards": 16, "quick_shards": 2},
+        ],
+        "assumptions": ["harness process evaluator; transforms return on every path and divide by non-zero constants only (K1); matchNumber is not used inside transform expressions (its run-time type is undocumented)"],
+    },
+    "C14": {
+        "parts": [
+            {"test": "TestC14", "quick": 60000, "thorough": 300000, "shards": 16, "quick_shards": 2},
+        ],
+        "assumptions": ["conventional rule for references: a group keeps its last participating value; a reference evaluated before its group participated is engine specific -> discarded and counted",
+                        "K4 (capturing group under a quantifier with min >= 1 or max = 0) and K5 (numbered reference in a regex with named groups) excluded by construction and counted"],
+    },
+    "C15": {
+        "parts": [
+            {"test": "TestC15Gaps", "rapid": False, "quick": 0, "thorough": 0, "shards": 16, "quick_shards": 8},
+            {"test": "TestC15Random", "quick": 5000, "thorough": 20000, "shards": 16, "quick_shards": 2},
+        ],
+        "assumptions": ["layout soundness rules: nothing only between tokens that do not fuse, no comment glued to a preceding '-', comment bodies without newline / ')--'"],
+    },
+    "C16": {
+        "parts": [
+            {"test": "TestC16Table", "rapid": False, "quick": 0, "thorough": 0, "shards": 1},
+            {"test": "TestC16Random", "quick": 20000, "thorough": 200000, "shards": 16},
+        ],
+        "assumptions": ["ASCII bytes 0x01..0x7f only"],
+    },
+    "C17": {
+        "parts": [
+            {"test": "TestC17", "quick": 8000, "thorough": 100000, "shards": 16, "quick_shards": 2},
+        ],
+        "assumptions": ["exact string equality only where the in-memory string is valid UTF-8 (encoding/json replaces invalid bytes)"],
+    },
 }
